@@ -31,6 +31,19 @@ def generate(rng, size="small", hash_style=None, kind=None):
     d.params = dict(nfun=d.nfun, nlibs=d.nlibs, nobj=d.nobj, hash_style=d.hash_style, kind=d.kind,
                     export_dynamic=d.export_dynamic, ndata=d.ndata, size=size)
     d.fun_obj = [rng.randrange(d.nobj) for _ in range(d.nfun)]
+    # Per library data symbol: is it read directly from code (copy relocation in a non-PIC exe), is
+    # its address stored in writable data (absolute relocation against the same symbol), is that
+    # stored address taken through a weak alias of the symbol, and in which object does the pointer
+    # live (the object that holds the pointer and the one that reads the variable may be scanned in
+    # either order and may be in different groups).
+    d.data_use = []
+    for i in range(d.ndata):
+        d.data_use.append({"direct": rng.random() < 0.8, "ptr": rng.random() < 0.6,
+                           "alias": rng.random() < 0.4, "ptr_obj": rng.randrange(d.nobj),
+                           "ptr_first": rng.random() < 0.5})
+    # addresses of library functions stored in data (function pointers into a shared library)
+    d.fptrs = [(rng.randrange(d.nlibs), rng.randrange(d.nobj)) for _ in range(rng.randint(0, 3))]
+    d.params["data_use"] = [(u["direct"], u["ptr"], u["alias"]) for u in d.data_use]
     return d
 
 
@@ -51,6 +64,8 @@ def emit(d, workdir):
                 out.append(f"\t.type dv{i},@object")
                 out.append(f"dv{i}:\t.quad {i + 7}")
                 out.append(f"\t.size dv{i}, 8")
+                out.append(f"\t.weak dva{i}")
+                out.append(f"\t.set dva{i}, dv{i}")
         out.append('\t.section .note.GNU-stack,"",@progbits')
         src = os.path.join(workdir, f"lib{k}.s")
         with open(src, "w") as f:
@@ -76,6 +91,19 @@ def emit(d, workdir):
             out.append(f"\tmovl ${i}, %eax")
             out.append("\tret")
             out.append(f"\t.size f{i}, .-f{i}")
+        if d.kind != "shared":
+            for i, u in enumerate(getattr(d, "data_use", [])):
+                if u["ptr"] and u["ptr_obj"] == o:
+                    out.append(f'\t.section .data.p{i},"aw",@progbits')
+                    out.append("\t.p2align 3")
+                    out.append(f"\t.globl p{i}")
+                    out.append(f"p{i}:\t.quad {'dva' if u['alias'] else 'dv'}{i}")
+            for n, (k, po) in enumerate(getattr(d, "fptrs", [])):
+                if po == o and d.lib_refs[k]:
+                    out.append(f'\t.section .data.fp{n},"aw",@progbits')
+                    out.append("\t.p2align 3")
+                    out.append(f"\t.globl fp{n}")
+                    out.append(f"fp{n}:\t.quad g{k}_0")
         out.append('\t.section .note.GNU-stack,"",@progbits')
         src = os.path.join(workdir, f"m{o}.s")
         with open(src, "w") as f:
@@ -89,12 +117,19 @@ def emit(d, workdir):
         for j in range(0, len(d.lib_refs[k]), 3):
             rt.append(f"\tcall g{k}_{j}@PLT")
     if d.kind != "shared":
+        use = getattr(d, "data_use", [{"direct": True, "ptr": False}] * d.ndata)
         for i in range(d.ndata):
-            # direct reference to a data symbol in a shared library: copy relocation in non-PIC exe
-            if d.kind == "exe":
-                rt.append(f"\tmovq dv{i}(%rip), %rax")
-            else:
-                rt.append(f"\tmovq dv{i}@GOTPCREL(%rip), %rax")
+            u = use[i]
+            ptr_ref = [f"\tmovq p{i}(%rip), %rax"] if u["ptr"] else []
+            direct = []
+            if u["direct"]:
+                # direct reference to a data symbol in a shared library: copy relocation in non-PIC exe
+                direct = [f"\tmovq dv{i}(%rip), %rax" if d.kind == "exe"
+                          else f"\tmovq dv{i}@GOTPCREL(%rip), %rax"]
+            rt += (ptr_ref + direct) if u.get("ptr_first") else (direct + ptr_ref)
+        for n, (k, po) in enumerate(getattr(d, "fptrs", [])):
+            if d.lib_refs[k]:
+                rt.append(f"\tmovq fp{n}(%rip), %rax")
     rt += ["\tmovl $231, %eax", "\txorl %edi, %edi", "\tsyscall", "\t.size _start, .-_start",
            '\t.section .note.GNU-stack,"",@progbits']
     src = os.path.join(workdir, "rt.s")
